@@ -512,6 +512,60 @@ def run_trig(case, stt):
     stt.label("fn_" + fn)
 
 
+# -- long arrays (block-wise implementations) ---------------------------------------------------------------------------
+
+
+@st.composite
+def long_case(draw):
+    n = draw(st.sampled_from([65535, 65536, 65537, 70001]))
+    return {"n": n, "seed": draw(st.integers(0, 10**6)), "op": draw(st.sampled_from(["add", "sub", "mul", "div", "neg", "mul_arr", "add_scalar", "mod"])),
+            "big": draw(st.sampled_from([0, 10**6, 2**40, 2**50]))}
+
+
+def run_long(case, stt):
+    import pulsarbat as pb
+
+    n = case["n"]
+    rng = np.random.default_rng(case["seed"])
+    c1 = np.rint(rng.uniform(-1, 1, n) * max(case["big"], 3))
+    f1 = rng.uniform(-0.5, 0.5, n)
+    c2 = np.rint(rng.uniform(-1, 1, n) * max(case["big"], 3))
+    f2 = rng.uniform(-0.5, 0.5, n)
+    k = rng.choice([0.5, 2.0, 3.0, -1.5, 0.25], n)
+    with lib("long Phase arrays"):
+        p, q = pb.Phase(c1, f1), pb.Phase(c2, f2)
+        op = case["op"]
+        if op == "add":
+            r = p + q
+        elif op == "sub":
+            r = p - q
+        elif op == "mul":
+            r = p * 3.0
+        elif op == "div":
+            r = p / 3.0
+        elif op == "neg":
+            r = -p
+        elif op == "mul_arr":
+            r = p * k
+        elif op == "add_scalar":
+            r = p + 7
+        else:
+            r = p % (1.0 * u.cycle)
+    is_phase(r, "long " + op)
+    check(r.shape == (n,), "long {}: shape {}", op, r.shape)
+    idx = sorted(set(list(range(64)) + list(range(n - 64, n)) + list(range(65500, min(n, 65600))) + [int(i) for i in rng.integers(0, n, 600)]))
+    pv, qv, rv = p.view(np.ndarray), q.view(np.ndarray), r.view(np.ndarray)
+    for i in idx:
+        a = F(float(pv["int"][i])) + F(float(pv["frac"][i]))
+        b = F(float(qv["int"][i])) + F(float(qv["frac"][i]))
+        g = F(float(rv["int"][i])) + F(float(rv["frac"][i]))
+        e = {"add": a + b, "sub": a - b, "mul": a * 3, "div": a / 3, "neg": -a, "mul_arr": a * F(float(k[i])), "add_scalar": a + 7,
+             "mod": a - math.floor(a)}[op]
+        check(abs(g - e) <= TWO52, "long {} ({} elements): element {} is {} but exactly {}", op, n, i, _fmt(g), _fmt(e))
+    stt.nt()
+    stt.label("op_" + op)
+
+
 SUBS = [
     Sub("construct", construct_case(), run_construct,
         "Phase(one number) / Phase(two numbers, unnormalised, scalars, NumPy scalars, arrays, cycle Quantities, Phase+number); non-trivial = "
@@ -528,6 +582,9 @@ SUBS = [
         "phase // d, phase % d, divmod, np.divmod for angular divisors (cycle Quantity scalar/array, Phase); q integral, q*d+r == dividend "
         "within 2^-52, r in [0,d), mutual consistency; non-trivial = |count| >= 2^33 with non-zero fraction or a fraction below 1e-10",
         quick=1500, thorough=40000, pieces_quick=3),
+    Sub("long_arrays", long_case(), run_long,
+        "Phase arrays of 65535..70001 elements: + - * / neg, array factors, scalar addition, remainder; elements at both ends, around 2^16 and "
+        "600 random ones compared with exact rationals; all non-trivial", quick=24, thorough=400, pieces_quick=4),
     Sub("trig", trig_case(), run_trig,
         "sin/cos/tan(phase), exp(1j*phase) equal the function of 2 pi frac and are unchanged when an integer is added; non-trivial = |count| >= "
         "2^33 and a non-zero fraction", quick=800, thorough=20000),
